@@ -3217,10 +3217,21 @@ func blockCallbacksOf(fn *ssa.Function) []*ssa.Function {
 	}
 	seen := map[*ssa.Function]bool{}
 	var out []*ssa.Function
-	add := func(f *ssa.Function) {
+	var add func(f *ssa.Function)
+	add = func(f *ssa.Function) {
 		if f != nil && !seen[f] {
 			seen[f] = true
 			out = append(out, f)
+			// a bound method (body.check handed over as the callback): the method itself
+			if f.Synthetic != "" {
+				for _, b := range f.Blocks {
+					for _, ins := range b.Instrs {
+						if c, ok := ins.(*ssa.Call); ok {
+							add(c.Call.StaticCallee())
+						}
+					}
+				}
+			}
 		}
 	}
 	var resolve func(v ssa.Value, d int)
